@@ -144,9 +144,9 @@ func TestVerifC17Arb(t *testing.T) {
 		w.cl = fake.NewClientBuilder().WithStatusSubresource(&v1alpha1.PodMigrationJob{}).WithScheme(scheme).Build()
 		// a job is ADDED to the arbitrator (Create event) while its persisted phase is `phase0`; a live controller only ever
 		// sees Create events of fresh jobs, a restarted one of every existing job
-		phase0 := []int{0, 0, 1, 2, 2, 5}[r.Intn(6)]
+		phase0 := []int{0, 0, 1, 2, 2}[r.Intn(5)]
 		if armed && r.Chance(1, 2) {
-			phase0 = r.Range(3, 4)
+			phase0 = r.Range(3, 5)
 		}
 		pod := !r.Chance(1, 4)
 		w.nonRetry, w.retry = r.Chance(1, 2), r.Chance(1, 4)
@@ -174,7 +174,7 @@ func TestVerifC17Arb(t *testing.T) {
 			switch {
 			case c < 2: // controller (re)start: Create event for the job as it is in the API server now
 				cur := w.job()
-				if !armed && (cur.Status.Phase == v1alpha1.PodMigrationJobSucceeded || cur.Status.Phase == v1alpha1.PodMigrationJobFailed) {
+				if !armed && (cur.Status.Phase == v1alpha1.PodMigrationJobSucceeded || cur.Status.Phase == v1alpha1.PodMigrationJobFailed || cur.Status.Phase == v1alpha1.PodMigrationJobAborted) {
 					// gated: a restart after the job has finished
 					h.Tag("gated:restart-with-terminal-job-skipped")
 					continue
